@@ -24,8 +24,7 @@ static void placements(void) {
 
 typedef struct { pm *fin[3]; pm *res; uint64_t scalar; int have; } baseline;
 
-static void run_case(const vop *o, int si, int mask, int pi, int fill, int data, baseline *bl) {
-  const oshape *s = &o->shapes[si];
+static void run_case_s(const vop *o, const oshape *s, int mask, int pi, int fill, int data, baseline *bl) {
   pm *content[3] = {0, 0, 0};
   for (int k = 0; k < o->nmat; k++) content[k] = op_content(o, s, k, data);
   char sig[96], wn[8] = ""; { int n = 0; for (int k = 0; k < o->nmat; k++) if (mask & (1 << k)) wn[n++] = (char)('0' + k); wn[n] = 0; }
@@ -65,8 +64,53 @@ static void run_case(const vop *o, int si, int mask, int pi, int fill, int data,
   vx_input(dg ^ ((uint64_t)mask << 56) ^ ((uint64_t)pi << 48) ^ ((uint64_t)fill << 44) ^ ((uint64_t)(o - OPS) << 32), 1);
 }
 
+static void run_case(const vop *o, int si, int mask, int pi, int fill, int data, baseline *bl) { run_case_s(o, &o->shapes[si], mask, pi, fill, data, bl); }
+
+/* width sweep: the data-movement / element-wise / small-product entry points on views of EVERY width 1..130 (and a few wider),
+   i.e. every residue of the column count modulo 64 and every size class of the width-specialised kernels, not only the handful
+   of shapes of the registry */
+static int sweep_shape(const vop *o, int r, int w, int l, oshape *out) {
+  memset(out, 0, sizeof *out);
+  const oshape *f = o->shapes;
+  if (f == sh_one || f == sh_tr_new || f == sh_extract_new) { out->d[0][0] = r; out->d[0][1] = w; return 1; }
+  if (f == sh_same2 || f == sh_obs2) { for (int k = 0; k < 2; k++) { out->d[k][0] = r; out->d[k][1] = w; } return 1; }
+  if (f == sh_same3) { for (int k = 0; k < 3; k++) { out->d[k][0] = r; out->d[k][1] = w; } return 1; }
+  if (f == sh_tr) { out->d[0][0] = w; out->d[0][1] = r; out->d[1][0] = r; out->d[1][1] = w; return 1; }
+  if (f == sh_mul || f == sh_mul_k) { out->d[0][0] = r; out->d[0][1] = w; out->d[1][0] = r; out->d[1][1] = l; out->d[2][0] = l; out->d[2][1] = w; return 1; }
+  if (f == sh_mul_new) { out->d[0][0] = r; out->d[0][1] = l; out->d[1][0] = l; out->d[1][1] = w; return 1; }
+  if (f == sh_concat) { out->d[0][0] = r; out->d[0][1] = w + l; out->d[1][0] = r; out->d[1][1] = w; out->d[2][0] = r; out->d[2][1] = l; return 1; }
+  if (f == sh_concat_new) { out->d[0][0] = r; out->d[0][1] = w; out->d[1][0] = r; out->d[1][1] = l; return 1; }
+  if (f == sh_stack) { out->d[0][0] = r + 2; out->d[0][1] = w; out->d[1][0] = r; out->d[1][1] = w; out->d[2][0] = 2; out->d[2][1] = w; return 1; }
+  if (f == sh_stack_new) { out->d[0][0] = r; out->d[0][1] = w; out->d[1][0] = 2; out->d[1][1] = w; return 1; }
+  return 0;
+}
+static void mode_sweep(void) {
+  static const plc SP[] = {{1, 1, -1, 2, 0}, {0, 0, 1, 0, 0}, {1, 1, 1, 2, 1}, {0, 2, 0, 0, 0}};
+  nPL = 4; for (int i = 0; i < 4; i++) PL[i] = SP[i];
+  static const int RS[] = {6, 33, 1, 70};
+  for (int oi = 0; oi < NOPS; oi++) { const vop *o = &OPS[oi]; oshape sh;
+    if (!sweep_shape(o, 1, 1, 1, &sh)) continue;
+    for (int ri = 0; ri < (vx_tier ? 4 : 2); ri++) for (int wi = 0; wi < 136; wi++) {
+      int w = wi < 130 ? wi + 1 : (wi == 130 ? 191 : wi == 131 ? 192 : wi == 132 ? 193 : wi == 133 ? 256 : wi == 134 ? 257 : 320), r = RS[ri], l = (wi & 1) ? 70 : 9;
+      if (o->shapes == sh_mul_k || o->shapes == sh_mul || o->shapes == sh_mul_new) { if (!vx_tier && (w % 64 > 2 && w % 64 < 31 && w % 64 != 16) ) continue; }
+      sweep_shape(o, r, w, l, &sh);
+      vx_group();
+      baseline bl; memset(&bl, 0, sizeof bl);
+      int full = (1 << o->nmat) - 1;
+      for (int mi = 0; mi < 3; mi++) { int mask = mi == 0 ? full : mi == 1 ? 1 : (1 << (o->nmat - 1)); if (mi && mask == full) continue; if (mask & o->nowin) continue;
+        for (int pi = 0; pi < 4; pi++) { if (!vx_tier && mi && (pi & 1)) continue;
+          if (!vx_case_begin("%s|sweep|win=%d|%dx%d,l=%d|place=%d", o->name, mask, r, w, l, pi)) continue;
+          run_case_s(o, &sh, mask, pi, 1, 0, &bl);
+          vx_case_end(); } }
+      for (int k = 0; k < 3; k++) if (bl.fin[k]) pm_free(bl.fin[k]);
+      if (bl.res) pm_free(bl.res);
+    }
+  }
+}
+
 void prop_enumerate(void) {
   placements();
+  if (!strcmp(vx_arg("mode", "registry"), "sweep")) { mode_sweep(); return; }
   int lo = vx_argi("op-from", 0), hi = vx_argi("op-to", NOPS);
   for (int oi = lo; oi < hi && oi < NOPS; oi++) { const vop *o = &OPS[oi];
     for (int si = 0; si < o->nshapes; si++) for (int data = 0; data < 2; data++) {
